@@ -3,7 +3,7 @@ import random
 import time
 
 from .sched import S
-from .common import base_knobs, FL
+from .common import gen_stalls, base_knobs, FL
 
 ARGS = [[], [], [0], [1, "x"], [None], [[1, 2]], [{"a": 1}], ["", 0.0, False], [["@tuple", 1, 2]], [3.5, [[]]]]
 KWARGS = [{}, {}, {"k": 1}, {"flag": False, "name": ""}, {"payload_": "x", "args": [1]}, {"self_": None}, {"flavour_": "trio"}]
@@ -12,6 +12,7 @@ KWARGS = [{}, {}, {"k": 1}, {"flag": False, "name": ""}, {"payload_": "x", "args
 def gen(seed, tier):
     rng = random.Random(seed)
     knobs = base_knobs(rng, tier)
+    knobs["stalls"] = gen_stalls(rng)
     ad = knobs["accept_delay"] = rng.choice([0.01, 0.1, 0.25, 0.5, 1.0])
     payloads = []
     scripts = [[["wait-running"]], [["wait-running"]]]
